@@ -1054,7 +1054,8 @@ class unyt_array(np.ndarray):
             to_units, (conv, offset) = _em_conversion(u, conv_data, unit_system=us)
         else:
             to_units = self.units.get_base_equivalent(unit_system)
-            conv, offset = self.units.get_conversion_factor(to_units, self.dtype)
+            # same dtype rules (and overflow warning) as every other conversion
+            return self.in_units(to_units)
         ret = self.v * conv
         if offset:
             ret = ret - offset
